@@ -120,6 +120,19 @@ func init() {
 			switch st.Str("op") {
 			case "new":
 				o = newModeObj(st, env)
+			case "setiv":
+				sv, ok := o.bm.(interface{ SetIV([]byte) })
+				if !ok {
+					panic("harness: mode object has no SetIV: " + o.mode)
+				}
+				iv := st.Hex("iv")
+				keep := append([]byte(nil), iv...)
+				sv.SetIV(iv)
+				// the caller may reuse its IV buffer afterwards
+				for j := range iv {
+					iv[j] ^= 0xFF
+				}
+				_ = keep
 			case "newcipher":
 				_, err := sm4.NewCipher(make([]byte, st.Int("keylen")))
 				if mm := DiffErr(i, err, st.Bool("err")); mm != nil {
